@@ -134,13 +134,13 @@ Local Open Scope string_scope.
 Definition grammar_before : grammar :=
   {| g_prim_mode := PrimChoice;
      g_prims := map bytes ["int"; "int32"; "int64"; "float"; "float32"; "float64"; "decimal"; "bool"; "bytes"; "string"; "date"; "datetime"; "any"];
-     g_mods := ModsSetOrder; g_dup := DupPanics |}.
+     g_mods := ModsSetOrder; g_dup := DupPanics; g_nil := NilDeref |}.
 Theorem parse_never_crashes_refuted_for_unchecked_duplicates :
   exists s, parse_payload grammar_before s = PCrash.
 Proof. exists (bytes "ok <: T [k=""1"", k=""2""]"). vm_compute. reflexivity. Qed.
 (* ... and the same text is refused once the check is there *)
 Example duplicate_name_refused_when_checked :
-  parse_payload {| g_prim_mode := PrimChoice; g_prims := g_prims grammar_before; g_mods := ModsSetOrder; g_dup := DupRefused |}
+  parse_payload {| g_prim_mode := PrimChoice; g_prims := g_prims grammar_before; g_mods := ModsSetOrder; g_dup := DupRefused; g_nil := NilGuarded |}
                 (bytes "ok <: T [k=""1"", k=""2""]") = PErr.
 Proof. vm_compute. reflexivity. Qed.
 
